@@ -497,6 +497,338 @@ fn guard_of(flags: (bool, bool)) -> Option<&'static str> {
     }
 }
 
+// ---------------------------------------------------------------- classes of arguments (evidence counters)
+
+fn form_v(a: &VArg) -> u8 {
+    match a {
+        VArg::Empty0 => 0,
+        VArg::Slice(_) => 1,
+        VArg::Pairs(..) => 3,
+    }
+}
+fn form_m(a: &MArg) -> u8 {
+    match a {
+        MArg::Empty0 => 0,
+        MArg::Slice(_) => 1,
+        MArg::Matrix(_) => 2,
+        MArg::Pairs(..) => 3,
+    }
+}
+
+/// classes of an `(index, values)` argument against a target of length `len`
+fn pairs_classes(i: &[usize], x: &[f64], len: usize, out: &mut Vec<String>) {
+    let k = i.len().min(x.len());
+    out.push(
+        if i.len() == x.len() { "pairs:len(index)=len(values)" } else if i.len() > x.len() { "pairs:len(index)>len(values)" } else { "pairs:len(index)<len(values)" }
+            .to_string(),
+    );
+    // which of the crate's two partial-update impls the wrapper dispatches to (parity of index.len())
+    out.push(if i.len() % 2 == 0 { "pairs-impl:Zip<Iter<usize>,Iter<T>>" } else { "pairs-impl:(Vec<usize>,Vec<T>)" }.to_string());
+    let inside = i[..k].iter().position(|&j| j >= len);
+    let beyond = i[k..].iter().any(|&j| j >= len);
+    match inside {
+        Some(0) => out.push("pairs:bad-index-inside-zip(rejected,nothing-applied)".into()),
+        Some(_) => out.push("pairs:bad-index-inside-zip(rejected,prefix-applied)".into()),
+        None => {}
+    }
+    if beyond {
+        out.push(if inside.is_none() { "pairs:bad-index-beyond-zip-only(accepted)" } else { "pairs:bad-index-beyond-zip-and-inside" }.to_string());
+    }
+    if let Some(pos) = inside {
+        if i.len() != x.len() {
+            out.push(format!("pairs:rejected-with-unequal-lengths(bad-at-{})", if pos == 0 { "0" } else { ">0" }));
+        }
+    }
+    if i[..k].iter().any(|&j| j + 1 == len) && len > 0 {
+        out.push("pairs:touches-last-entry".into());
+    }
+    if i[..k].iter().any(|&j| j == len) {
+        out.push("pairs:bad-index=len(boundary)".into());
+    }
+}
+
+fn varg_classes(a: &VArg, len: usize, out: &mut Vec<String>) {
+    match a {
+        VArg::Empty0 => out.push("vec-arg:[T;0]".into()),
+        VArg::Slice(d) => out.push(
+            if d.is_empty() { "vec-arg:slice-empty(accepted)" } else if d.len() == len { "vec-arg:slice-ok" } else if d.len() < len { "vec-arg:slice-too-short" } else { "vec-arg:slice-too-long" }
+                .to_string(),
+        ),
+        VArg::Pairs(i, x) => {
+            out.push("vec-arg:pairs".into());
+            pairs_classes(i, x, len, out)
+        }
+    }
+}
+
+fn marg_classes(a: &MArg, pat: &CscMatrix<f64>, out: &mut Vec<String>) {
+    let len = pat.nzval.len();
+    match a {
+        MArg::Empty0 => out.push("mat-arg:[T;0]".into()),
+        MArg::Slice(d) => out.push(
+            if d.is_empty() { "mat-arg:slice-empty(accepted)" } else if d.len() == len { "mat-arg:slice-ok" } else if d.len() < len { "mat-arg:slice-too-short" } else { "mat-arg:slice-too-long" }
+                .to_string(),
+        ),
+        MArg::Pairs(i, x) => {
+            out.push("mat-arg:pairs".into());
+            pairs_classes(i, x, len, out)
+        }
+        MArg::Matrix(m) => out.push(
+            if m.m != pat.m || m.n != pat.n {
+                "csc-arg:wrong-dimension(IncompatibleDimension)"
+            } else if m.colptr != pat.colptr {
+                "csc-arg:wrong-colptr(SparsityMismatch)"
+            } else if m.rowval != pat.rowval {
+                "csc-arg:wrong-rowval(SparsityMismatch)"
+            } else if m.nzval.is_empty() && len > 0 {
+                "csc-arg:right-pattern,empty-nzval(accepted,no-op)"
+            } else if m.nzval.len() > len {
+                "csc-arg:right-pattern,nzval-too-long(IncompatibleDimension)"
+            } else if m.nzval.len() < len {
+                "csc-arg:right-pattern,nzval-too-short(IncompatibleDimension)"
+            } else {
+                "csc-arg:ok"
+            }
+            .to_string(),
+        ),
+    }
+}
+
+fn v_rejects(a: &VArg, len: usize) -> bool {
+    spec_vec(a, &mut vec![0.0; len]).is_err()
+}
+fn m_rejects(a: &MArg, pat: &CscMatrix<f64>) -> bool {
+    spec_mat(a, pat, &mut vec![0.0; pat.nzval.len()]).is_err()
+}
+fn v_noop(a: &VArg) -> bool {
+    match a {
+        VArg::Empty0 => true,
+        VArg::Slice(d) => d.is_empty(),
+        VArg::Pairs(i, x) => i.is_empty() || x.is_empty(),
+    }
+}
+fn m_noop(a: &MArg) -> bool {
+    match a {
+        MArg::Empty0 => true,
+        MArg::Slice(d) => d.is_empty(),
+        MArg::Matrix(m) => m.nzval.is_empty(),
+        MArg::Pairs(i, x) => i.is_empty() || x.is_empty(),
+    }
+}
+
+/// classes of one operation of a history on a solver that accepts updates
+fn op_classes(op: &Op, patP: &CscMatrix<f64>, patA: &CscMatrix<f64>, n: usize, m: usize) -> Vec<String> {
+    let mut out = vec![];
+    match op {
+        Op::P(a) => marg_classes(a, patP, &mut out),
+        Op::A(a) => marg_classes(a, patA, &mut out),
+        Op::Q(a) => varg_classes(a, n, &mut out),
+        Op::B(a) => varg_classes(a, m, &mut out),
+        Op::D(p, q, a, b) => {
+            marg_classes(p, patP, &mut out);
+            varg_classes(q, n, &mut out);
+            marg_classes(a, patA, &mut out);
+            varg_classes(b, m, &mut out);
+            let mut kinds = vec![form_m(p), form_v(q), form_m(a), form_v(b)];
+            kinds.sort();
+            kinds.dedup();
+            out.push(format!("update_data:distinct-argument-forms={}", kinds.len()));
+            let rej = [m_rejects(p, patP), v_rejects(q, n), m_rejects(a, patA), v_rejects(b, m)];
+            let noop = [m_noop(p), v_noop(q), m_noop(a), v_noop(b)];
+            let first = rej.iter().position(|&r| r);
+            out.push(format!("update_data:first-rejecting-component={}", match first {
+                None => "none(accepted)",
+                Some(0) => "P",
+                Some(1) => "q",
+                Some(2) => "A",
+                _ => "b",
+            }));
+            if let Some(f) = first {
+                if f > 0 {
+                    let applied = (0..f).any(|j| !noop[j]);
+                    out.push(format!(
+                        "update_data:rejected-at-later-component,{}{}",
+                        if applied { "earlier-components-applied(not-atomic)" } else { "earlier-components-were-no-ops" },
+                        if is_pairs_op(op) { ",some-pairs-form" } else { ",whole-forms-only" }
+                    ));
+                }
+                if rej.iter().filter(|&&r| r).count() > 1 {
+                    out.push("update_data:several-components-would-reject(first-wins)".into());
+                }
+            }
+        }
+        _ => {}
+    }
+    out
+}
+
+/// the two partial-update impls (`Zip<Iter,Iter>` and `(Vec<usize>,Vec<T>)`) and the two
+/// whole-vector impls (`Vec<T>` and `[T]`) of the crate must agree on the same argument:
+/// same `Result`, bitwise the same written data.  Evaluated on copies of the solver's data.
+fn cross_forms(s: &DefaultSolver<f64>, op: &Op) -> Result<(), String> {
+    let eq = &s.data.equilibration;
+    let same = |a: &[f64], b: &[f64]| a.len() == b.len() && zip(a, b).all(|(x, y)| x.to_bits() == y.to_bits());
+    let rstr = |r: &Result<(), SparseFormatError>| match r {
+        Ok(()) => "ok".to_string(),
+        Err(e) => format!("{:?}", e),
+    };
+    let vec_check = |a: &VArg, v: &[f64], sc: &[f64], c: Option<f64>, what: &str| -> Result<(), String> {
+        match a {
+            VArg::Pairs(i, x) => {
+                let (mut v1, mut v2) = (v.to_vec(), v.to_vec());
+                let r1 = zip(i.iter(), x.iter()).update_vector(&mut v1, sc, c);
+                let r2 = (i.clone(), x.clone()).update_vector(&mut v2, sc, c);
+                tally("cross-form check: Zip<Iter,Iter> vs (Vec<usize>,Vec<T>) on the same argument (vector)");
+                if rstr(&r1) != rstr(&r2) || !same(&v1, &v2) {
+                    return Err(format!("{}: zip(&index,&values) gives {} but (index,values) gives {} (or different data) for index={:?}", what, rstr(&r1), rstr(&r2), i));
+                }
+            }
+            VArg::Slice(d) => {
+                let (mut v1, mut v2) = (v.to_vec(), v.to_vec());
+                let r1 = d.update_vector(&mut v1, sc, c);
+                let r2 = <[f64] as VectorProblemDataUpdate<f64>>::update_vector(d.as_slice(), &mut v2, sc, c);
+                if rstr(&r1) != rstr(&r2) || !same(&v1, &v2) {
+                    return Err(format!("{}: Vec<T> gives {} but [T] gives {} (or different data)", what, rstr(&r1), rstr(&r2)));
+                }
+            }
+            VArg::Empty0 => {}
+        }
+        Ok(())
+    };
+    let mat_check = |a: &MArg, M: &CscMatrix<f64>, l: &[f64], r: &[f64], c: Option<f64>, what: &str| -> Result<(), String> {
+        match a {
+            MArg::Pairs(i, x) => {
+                let (mut m1, mut m2) = (M.clone(), M.clone());
+                let r1 = zip(i.iter(), x.iter()).update_matrix(&mut m1, l, r, c);
+                let r2 = (i.clone(), x.clone()).update_matrix(&mut m2, l, r, c);
+                tally("cross-form check: Zip<Iter,Iter> vs (Vec<usize>,Vec<T>) on the same argument (matrix)");
+                if rstr(&r1) != rstr(&r2) || !same(&m1.nzval, &m2.nzval) {
+                    return Err(format!("{}: zip(&index,&values) gives {} but (index,values) gives {} (or different data) for index={:?}", what, rstr(&r1), rstr(&r2), i));
+                }
+            }
+            MArg::Slice(d) => {
+                let (mut m1, mut m2) = (M.clone(), M.clone());
+                let r1 = d.update_matrix(&mut m1, l, r, c);
+                let r2 = <[f64] as MatrixProblemDataUpdate<f64>>::update_matrix(d.as_slice(), &mut m2, l, r, c);
+                if rstr(&r1) != rstr(&r2) || !same(&m1.nzval, &m2.nzval) {
+                    return Err(format!("{}: Vec<T> gives {} but [T] gives {} (or different data)", what, rstr(&r1), rstr(&r2)));
+                }
+            }
+            _ => {}
+        }
+        Ok(())
+    };
+    let (d, e, c) = (&eq.d, &eq.e, eq.c);
+    match op {
+        Op::P(a) => mat_check(a, &s.data.P, d, d, Some(c), "update_P"),
+        Op::A(a) => mat_check(a, &s.data.A, e, d, None, "update_A"),
+        Op::Q(a) => vec_check(a, &s.data.q, d, Some(c), "update_q"),
+        Op::B(a) => vec_check(a, &s.data.b, e, None, "update_b"),
+        Op::D(p, q, a, b) => {
+            mat_check(p, &s.data.P, d, d, Some(c), "update_data(P)")?;
+            vec_check(q, &s.data.q, d, Some(c), "update_data(q)")?;
+            mat_check(a, &s.data.A, e, d, None, "update_data(A)")?;
+            vec_check(b, &s.data.b, e, None, "update_data(b)")
+        }
+        _ => Ok(()),
+    }
+}
+
+/// State equivalence before the final solve: the updated solver `s` against a fresh solver `f`
+/// built from the final user-level data `u`.
+/// * equilibration off on both (`d = e = 1`, `c = 1`): every component data updating touches
+///   coincides BITWISE — internal `P q A b`, patterns, data maps, `AtoPAPt`, the KKT values at
+///   the `map.P` / `map.A` positions and QDLDL's permuted copy there (the statically
+///   regularised diagonal left by an earlier `solve` is exempt until the next `P` copy).
+/// * equilibration on: the internal data is the closed form `c·D·P·D, c·D·q, E·A·D, E·b` of
+///   the final user data with the solver's OWN (original) `d, e, c`.
+fn state_equiv(s: &DefaultSolver<f64>, f: &DefaultSolver<f64>, u: &User, shifted: bool) -> Result<(), String> {
+    let ones = |v: &[f64]| v.iter().all(|&x| x == 1.0);
+    let (es, ef) = (&s.data.equilibration, &f.data.equilibration);
+    let unit = ones(&es.d) && ones(&es.e) && es.c == 1.0 && ones(&ef.d) && ones(&ef.e) && ef.c == 1.0;
+    let bits = |a: &[f64], b: &[f64]| -> Option<usize> {
+        if a.len() != b.len() {
+            return Some(usize::MAX);
+        }
+        (0..a.len()).find(|&i| a[i].to_bits() != b[i].to_bits())
+    };
+    if s.data.P.colptr != f.data.P.colptr || s.data.P.rowval != f.data.P.rowval || s.data.A.colptr != f.data.A.colptr || s.data.A.rowval != f.data.A.rowval
+        || s.data.P.m != f.data.P.m || s.data.P.n != f.data.P.n || s.data.A.m != f.data.A.m || s.data.A.n != f.data.A.n
+    {
+        return Err("state equivalence: the fresh solver on the final data has different patterns".into());
+    }
+    let (ks, kf) = (s.kktsystem.verif_c08_kkt_state().unwrap(), f.kktsystem.verif_c08_kkt_state().unwrap());
+    if ks.map_P != kf.map_P || ks.map_A != kf.map_A || ks.map_diag_full != kf.map_diag_full || ks.AtoPAPt != kf.AtoPAPt {
+        return Err("state equivalence: data maps / AtoPAPt of the updated solver differ from those of a fresh solver".into());
+    }
+    if unit {
+        if !u.b.iter().all(|v| v.is_finite() && v.abs() < 1e19) {
+            tally("state equivalence skipped (final b reaches the infinity bound, which only `new` caps)");
+            return Ok(());
+        }
+        tally("state equivalence, equilibration off: bitwise comparison with the fresh solver");
+        for (name, a, b) in [("P.nzval", &s.data.P.nzval, &f.data.P.nzval), ("q", &s.data.q, &f.data.q), ("A.nzval", &s.data.A.nzval, &f.data.A.nzval), ("b", &s.data.b, &f.data.b)] {
+            if let Some(i) = bits(a, b) {
+                return Err(format!("state equivalence: internal {}[{}] = {:e} after the updates, {:e} in a fresh solver on the final data", name, i, a.get(i).copied().unwrap_or(f64::NAN), b.get(i).copied().unwrap_or(f64::NAN)));
+            }
+        }
+        let (ls, lf) = (ks.ldl_nzval.as_ref().unwrap(), kf.ldl_nzval.as_ref().unwrap());
+        let atop = ks.AtoPAPt.as_ref().unwrap();
+        for (blk, map) in [("P", &ks.map_P), ("A", &ks.map_A)] {
+            for (i, &j) in map.iter().enumerate() {
+                if ks.kkt_nzval[j].to_bits() != kf.kkt_nzval[j].to_bits() {
+                    return Err(format!("state equivalence: KKT.nzval[map.{}[{}]] = {:e} after the updates, {:e} in a fresh solver", blk, i, ks.kkt_nzval[j], kf.kkt_nzval[j]));
+                }
+                let diag = ks.map_diag_full.contains(&j);
+                if !(diag && shifted) && ls[atop[j]].to_bits() != lf[atop[j]].to_bits() {
+                    return Err(format!("state equivalence: LDL copy of {} entry {} = {:e} after the updates, {:e} in a fresh solver", blk, i, ls[atop[j]], lf[atop[j]]));
+                }
+            }
+        }
+    } else {
+        tally("state equivalence, equilibration on: internal data = closed form c*D*P*D, c*D*q, E*A*D, E*b of the final user data");
+        let (d, e, c) = (&es.d, &es.e, es.c);
+        let cp = col_index(&s.data.P);
+        let ca = col_index(&s.data.A);
+        let near = |a: f64, b: f64| a == b || (a - b).abs() <= 1e-13 * a.abs().max(b.abs());
+        for k in 0..s.data.P.nzval.len() {
+            let w = u.P[k] * d[s.data.P.rowval[k]] * d[cp[k]] * c;
+            if !near(s.data.P.nzval[k], w) {
+                return Err(format!("state equivalence: internal P.nzval[{}] = {:e} but c*d*d*P = {:e}", k, s.data.P.nzval[k], w));
+            }
+        }
+        for i in 0..s.data.q.len() {
+            let w = u.q[i] * d[i] * c;
+            if !near(s.data.q[i], w) {
+                return Err(format!("state equivalence: internal q[{}] = {:e} but c*d*q = {:e}", i, s.data.q[i], w));
+            }
+        }
+        for k in 0..s.data.A.nzval.len() {
+            let w = e[s.data.A.rowval[k]] * d[ca[k]] * u.A[k];
+            if !near(s.data.A.nzval[k], w) {
+                return Err(format!("state equivalence: internal A.nzval[{}] = {:e} but e*d*A = {:e}", k, s.data.A.nzval[k], w));
+            }
+        }
+        for i in 0..s.data.b.len() {
+            let w = e[i] * u.b[i];
+            if !near(s.data.b[i], w) {
+                return Err(format!("state equivalence: internal b[{}] = {:e} but e*b = {:e}", i, s.data.b[i], w));
+            }
+        }
+    }
+    // norm caches: absent, or the norm of the final user-level vector — on both solvers
+    for (who, (nq, nb)) in [("updated", s.data.verif_c08_norm_caches()), ("fresh", f.data.verif_c08_norm_caches())] {
+        for (name, cache, w) in [("normq", nq, norm_inf(&u.q)), ("normb", nb, norm_inf(&u.b))] {
+            if let Some(v) = cache {
+                if (v - w).abs() > 1e-12 * w.max(v) {
+                    return Err(format!("state equivalence: {} solver caches {} = {:e} but the final user-level vector has norm {:e}", who, name, v, w));
+                }
+            }
+        }
+    }
+    Ok(())
+}
+
 // ---------------------------------------------------------------- channel: upd.seq
 
 fn run_seq(r: &Req) -> String {
@@ -699,6 +1031,7 @@ fn oracle_seq(r: &Req, out: &str) -> Result<(), String> {
     for (i, op) in ops.iter().enumerate() {
         let before = (s.data.P.nzval.clone(), s.data.q.clone(), s.data.A.nzval.clone(), s.data.b.clone());
         let caches_before = s.data.verif_c08_norm_caches();
+        cross_forms(&s, op).map_err(|e| format!("op {}: {}", i, e))?;
         let res = apply(&mut s, op);
         let (want, p_copied) = spec_op(op, guard, &patP, &patA, &mut u);
         if res != want {
@@ -787,13 +1120,18 @@ fn oracle_seq(r: &Req, out: &str) -> Result<(), String> {
         tally("final comparison skipped: history ends in a state left by a rejected partial update");
         return Ok(());
     }
-    s.solve();
     let mut fp = p.clone();
     fp.P = CscMatrix { nzval: u.P.clone(), ..patP.clone() };
     fp.q = u.q.clone();
     fp.A = CscMatrix { nzval: u.A.clone(), ..patA.clone() };
     fp.b = u.b.clone();
     let mut f = build(&fp);
+    if f.is_data_update_allowed() {
+        state_equiv(&s, &f, &u, shifted)?;
+    } else {
+        tally("state equivalence skipped (fresh solver presolved / decomposed)");
+    }
+    s.solve();
     f.solve();
     if std::env::var("C08_DEBUG").is_ok() {
         eprintln!("updated: {:?} it={} obj={:e} x={:?}\nfresh: {:?} it={} obj={:e} x={:?}\nuser P={:?} q={:?} A={:?} b={:?}", s.solution.status, s.solution.iterations, s.solution.obj_val, s.solution.x, f.solution.status, f.solution.iterations, f.solution.obj_val, f.solution.x, u.P, u.q, u.A, u.b);
@@ -1017,6 +1355,35 @@ fn gen_idx_pairs(rng: &mut Rng, len: usize, invalid: bool, val: &mut dyn FnMut(&
     } else if rng.bool(0.1) && !idx.is_empty() {
         idx.push(len + 5); // never reached: values are exhausted first
     }
+    // more zip-truncation shapes, both directions: cut one of the lists anywhere (a bad index
+    // then lies beyond the shorter length — never examined, accepted — or stays inside it —
+    // rejected, prefix applied), or append several surplus entries
+    if rng.bool(0.12) && !idx.is_empty() {
+        if rng.bool(0.5) {
+            let k = rng.below(vals.len() + 1);
+            vals.truncate(k);
+        } else {
+            let k = rng.below(idx.len() + 1);
+            idx.truncate(k);
+        }
+    } else if rng.bool(0.08) {
+        let extra = 1 + rng.below(3);
+        if rng.bool(0.5) {
+            for _ in 0..extra {
+                // surplus indices: in range, exactly `len` (boundary) or far out — never examined
+                let j = match rng.below(3) {
+                    0 => len,
+                    1 => len + 1 + rng.below(4),
+                    _ => rng.below(len.max(1)),
+                };
+                idx.push(j);
+            }
+        } else {
+            for _ in 0..extra {
+                vals.push(3.0); // surplus values: ignored
+            }
+        }
+    }
     (idx, vals)
 }
 
@@ -1073,10 +1440,21 @@ fn gen_marg(rng: &mut Rng, pat: &CscMatrix<f64>, invalid: bool, val: &mut dyn Fn
                         }
                     }
                     _ => {
-                        // same pattern, value array of the wrong length
-                        m.nzval.push(1.0);
+                        // same pattern, value array of the wrong length (longer, or shorter but nonempty)
+                        if len >= 2 && rng.bool(0.4) {
+                            let k = 1 + rng.below(len - 1);
+                            m.nzval.truncate(k);
+                        } else {
+                            m.nzval.push(1.0);
+                            if rng.bool(0.3) {
+                                m.nzval.push(2.0);
+                            }
+                        }
                     }
                 }
+            } else if rng.bool(0.06) {
+                // same pattern, EMPTY value array: accepted, nothing changes (the `[T]` rule)
+                m.nzval.clear();
             }
             MArg::Matrix(m)
         }
@@ -1088,6 +1466,17 @@ fn gen_marg(rng: &mut Rng, pat: &CscMatrix<f64>, invalid: bool, val: &mut dyn Fn
 }
 
 fn gen_op(rng: &mut Rng, p: &Prob, sh: &Shape, patP: &CscMatrix<f64>, patA: &CscMatrix<f64>, invalid_rate: f64) -> Op {
+    gen_op_with(rng, p, sh, patP, patA, invalid_rate, None)
+}
+
+/// argument-form templates for a forced `update_data` (0 `[T;0]`, 1 slice / `Vec`, 2 `CscMatrix`,
+/// 3 `(index,value)` pairs): at least three different forms across the four arguments
+const MIXED_FORMS: [[u8; 4]; 8] = [[2, 3, 0, 1], [3, 1, 2, 0], [1, 0, 3, 3], [0, 3, 1, 3], [2, 0, 3, 1], [3, 3, 2, 1], [1, 3, 2, 3], [2, 1, 3, 0]];
+
+/// `force = Some(k)`: an `update_data` with mixed argument forms whose component `k` (0 `P`,
+/// 1 `q`, 2 `A`, 3 `b`) is the FIRST to be rejected (`k = 4`: all accepted; `k >= 5`: component
+/// `k - 5` AND the last one are invalid — the first wins)
+fn gen_op_with(rng: &mut Rng, p: &Prob, sh: &Shape, patP: &CscMatrix<f64>, patA: &CscMatrix<f64>, invalid_rate: f64, force: Option<usize>) -> Op {
     let diag = diag_flags(patP);
     let (psc, qsc) = (sh.psc, sh.qsc);
     let wild = rng.bool(0.1);
@@ -1114,6 +1503,41 @@ fn gen_op(rng: &mut Rng, p: &Prob, sh: &Shape, patP: &CscMatrix<f64>, patA: &Csc
         None => 1.0,
     };
     let (n, m) = (p.q.len(), p.b.len());
+    if let Some(k) = force {
+        let bad = |j: usize| if k <= 4 { j == k } else { j == k - 5 || j == 3 };
+        let mut forms = *rng.choose(&MIXED_FORMS);
+        for j in 0..4 {
+            // an invalid argument cannot be in an empty form
+            if bad(j) && forms[j] == 0 {
+                forms[j] = if j % 2 == 0 { 2 } else { 1 };
+            }
+        }
+        let mut pick_m = |rng: &mut Rng, pat: &CscMatrix<f64>, inv: bool, want: u8, val: &mut dyn FnMut(&mut Rng, usize) -> f64| {
+            let mut a = gen_marg(rng, pat, inv, val);
+            for _ in 0..60 {
+                if form_m(&a) == want && m_rejects(&a, pat) == inv {
+                    break;
+                }
+                a = gen_marg(rng, pat, inv, val);
+            }
+            a
+        };
+        let a1 = pick_m(rng, patP, bad(0), forms[0], &mut pv);
+        let a3 = pick_m(rng, patA, bad(2), forms[2], &mut av);
+        let mut pick_v = |rng: &mut Rng, len: usize, inv: bool, want: u8, val: &mut dyn FnMut(&mut Rng, usize) -> f64| {
+            let mut a = gen_varg(rng, len, inv, val);
+            for _ in 0..60 {
+                if form_v(&a) == want && v_rejects(&a, len) == inv {
+                    break;
+                }
+                a = gen_varg(rng, len, inv, val);
+            }
+            a
+        };
+        let a2 = pick_v(rng, n, bad(1), forms[1], &mut qv);
+        let a4 = pick_v(rng, m, bad(3), forms[3], &mut bv);
+        return Op::D(a1, a2, a3, a4);
+    }
     let i1 = rng.bool(invalid_rate);
     let r = invalid_rate / 2.0;
     let (j1, j2, j3, j4) = (rng.bool(r), rng.bool(r), rng.bool(r), rng.bool(r));
@@ -1164,6 +1588,14 @@ fn submit_history(s: &mut Session, p: &Prob, ops: &[Op]) {
             Op::Norms => "op:norms",
         });
     }
+    if guard_of(flags).is_none() {
+        let (patP, patA) = (&solver.data.P, &solver.data.A);
+        for o in ops {
+            for c in op_classes(o, patP, patA, p.q.len(), p.b.len()) {
+                s.count(&c);
+            }
+        }
+    }
     let out = s.submit(l.done());
     for tok in out.split_whitespace() {
         if let Some((k, v)) = tok.split_once('=') {
@@ -1193,6 +1625,22 @@ fn generate(s: &mut Session) {
         let nops = 1 + rng.below(8);
         let rate = *rng.choose(&[0.0, 0.3, 0.3, 0.6]);
         let ops: Vec<Op> = (0..nops).map(|_| gen_op(&mut rng, &p, &sh, &patP, &patA, rate)).collect();
+        submit_history(s, &p, &ops);
+    }
+    // `update_data` with MIXED argument forms; the first rejecting component is chosen
+    // (P, q, A, b, none, or two at once), so that the prefix effect of a rejected call — the
+    // components before the rejected one HAVE been applied — is compared with the model
+    for it in 0..s.budget(320, 6400) {
+        let mut rng = s.rng.fork();
+        let (p, sh) = gen_problem(&mut rng);
+        let probe = build(&p);
+        let (patP, patA) = (probe.data.P.clone(), probe.data.A.clone());
+        let mut ops: Vec<Op> = (0..rng.below(3)).map(|_| gen_op(&mut rng, &p, &sh, &patP, &patA, 0.2)).collect();
+        ops.push(gen_op_with(&mut rng, &p, &sh, &patP, &patA, 0.0, Some(it % 8)));
+        for _ in 0..rng.below(3) {
+            ops.push(gen_op(&mut rng, &p, &sh, &patP, &patA, 0.2));
+        }
+        s.count("history:forced-mixed-form-update_data");
         submit_history(s, &p, &ops);
     }
     // presolve active: every update form is refused, nothing changes
